@@ -9,6 +9,7 @@ import (
 	"fmt"
 	"math/rand"
 	"os"
+	"sort"
 	"strings"
 
 	"github.com/0xrawsec/sod/vshim"
@@ -99,6 +100,133 @@ func runHistory(w *bufio.Writer, id int, seed int64, p Profile, lines []string, 
 	return e.spec.fails
 }
 
+// ---------------------------------------------------------------- C12: pairs of configurations
+
+// variant: another storage configuration / index subset with the SAME unique and case constraints
+func variant(r *rand.Rand, c Cfg) Cfg {
+	d := c
+	d.Cache = !c.Cache
+	if pct(r, 50) {
+		d.Compress = !c.Compress
+	}
+	if pct(r, 50) {
+		d.Lower = !c.Lower
+	}
+	if pct(r, 50) {
+		d.Async = !c.Async
+		d.Thr, d.To = 1+r.Intn(4), 1+r.Intn(3)
+	}
+	if pct(r, 40) {
+		d.Ext = []string{".json", ".dat", ".obj.v1", ""}[r.Intn(4)]
+	}
+	for i := 0; i < NF; i++ {
+		fl := []byte(c.Cons[i])
+		if fl[1] != '1' { // a unique field stays indexed as it was
+			if pct(r, 50) {
+				fl[0] = '1'
+			} else {
+				fl[0] = '0'
+			}
+		}
+		d.Cons[i] = string(fl)
+	}
+	return d
+}
+
+// normPair: the observable of one op that must not depend on the configuration
+func normPair(op string, obs []string) string {
+	t := strings.Fields(op)
+	r := ""
+	for _, l := range obs {
+		if strings.HasPrefix(l, "r ") {
+			r = l
+			break
+		}
+	}
+	switch t[0] {
+	case "dump", "fs", "aidx", "create", "tick", "failat", "crashat":
+		return "-" // configuration-specific observations
+	case "collect", "one":
+		f := strings.Fields(r)
+		if len(f) >= 3 && f[1] == "ok" {
+			lim := "-1"
+			if t[0] == "collect" {
+				lim = t[2]
+			}
+			if lim != "-1" || t[0] == "one" {
+				return "r ok " + f[2] // a limited result of an unordered set: its size
+			}
+			recs := append([]string{}, f[3:]...)
+			sort.Strings(recs)
+			return "r ok " + f[2] + " " + strings.Join(recs, " ")
+		}
+	}
+	return r
+}
+
+func runPair(w *bufio.Writer, id int, seed int64, p Profile) (diffs int) {
+	r := rand.New(rand.NewSource(seed))
+	p = profile("C12")
+	ca := genCfg(r, p)
+	cb := variant(r, ca)
+	// A: generate while executing
+	var sa strings.Builder
+	wa := bufio.NewWriter(&sa)
+	rootA, _ := os.MkdirTemp("", "hzA")
+	defer os.RemoveAll(rootA)
+	vshim.SetVirtual(true)
+	ea := NewExec(rootA, ca, wa, seed^0x5eed)
+	ea.virtual = true
+	nextSid = 0
+	var ops []string
+	var obsA [][]string
+	step := func(e *Exec, l string) []string {
+		e.Step(l)
+		return append([]string{}, e.obs...)
+	}
+	obsA = append(obsA, step(ea, "create"))
+	ops = append(ops, "create")
+	for n := 0; n < p.MaxOps; {
+		for _, l := range ea.GenOp(r, p) {
+			obsA = append(obsA, step(ea, l))
+			ops = append(ops, l)
+			n++
+		}
+	}
+	for _, l := range []string{"flushall", "control", "count", "all", "close", "reopen", "count", "all"} {
+		obsA = append(obsA, step(ea, l))
+		ops = append(ops, l)
+	}
+	ea.db.Close()
+	ea.drainFlushers()
+	wa.Flush()
+	// B: replay
+	var sb strings.Builder
+	wb := bufio.NewWriter(&sb)
+	rootB, _ := os.MkdirTemp("", "hzB")
+	defer os.RemoveAll(rootB)
+	eb := NewExec(rootB, cb, wb, seed^0x5eed)
+	eb.virtual = true
+	eb.spec.off = true
+	fmt.Fprintf(w, "pair %d seed=%d\n", id, seed)
+	fmt.Fprintf(w, "a %s | %s\n", ca.Lines()[0], ca.Lines()[1])
+	fmt.Fprintf(w, "b %s | %s\n", cb.Lines()[0], cb.Lines()[1])
+	for i, l := range ops {
+		ob := step(eb, l)
+		na, nb := normPair(l, obsA[i]), normPair(l, ob)
+		if na != nb {
+			diffs++
+			fmt.Fprintf(w, "! C12 op %d %q differs between configurations: A=%q B=%q\n", i, l, na, nb)
+			fmt.Fprintf(w, "replay %s\n", strings.Join(ops[:i+1], " ;; "))
+			break
+		}
+	}
+	eb.db.Close()
+	eb.drainFlushers()
+	fmt.Fprintf(w, "endpair %d ops=%d diffs=%d specfails=%d\n", id, len(ops), diffs, ea.spec.fails)
+	return
+}
+
 func main() {
 	prop := flag.String("prop", "C02", "profile / property id")
 	seed := flag.Int64("seed", 1, "seed")
@@ -107,6 +235,7 @@ func main() {
 	out := flag.String("out", "", "trace file (default stdout)")
 	replay := flag.String("replay", "", "replay file: cfg/fields header lines then op lines (one history)")
 	maxops := flag.Int("maxops", 0, "override profile MaxOps")
+	pair := flag.Bool("pair", false, "C12: run every history under a pair of configurations and compare (model-free)")
 	flag.Parse()
 
 	var w *bufio.Writer
@@ -125,8 +254,16 @@ func main() {
 	if *maxops > 0 {
 		p.MaxOps = *maxops
 	}
-	virtual := p.Name == "C10" || p.CfgMode == "async"
+	virtual := true // the flusher's sleeps always go through the virtual clock: ticks are explicit events
 	fails := 0
+	if *pair {
+		for i := 0; i < *n; i++ {
+			id := *first + i
+			fails += runPair(w, id, *seed*1000003+int64(id), p)
+		}
+		w.Flush()
+		return
+	}
 	if *replay != "" {
 		data, err := os.ReadFile(*replay)
 		if err != nil {
@@ -156,7 +293,6 @@ func main() {
 				ops = append(ops, l)
 			}
 		}
-		virtual = cfg.Async
 		fails = runHistory(w, 0, *seed, p, ops, &cfg, virtual)
 	} else {
 		for i := 0; i < *n; i++ {
